@@ -859,7 +859,7 @@ func (p *Printer) cmdSubst(cs *CmdSubst) {
 		p.wantSpace = spaceNotRequired
 		p.semiRsrv("}", cs.Right)
 	// Special case: `# inline comment`
-	case cs.Backquotes && len(cs.Stmts) == 0 &&
+	case cs.Backquotes && len(cs.Stmts) == 0 && !p.minify &&
 		len(cs.Last) == 1 && cs.Right.Line() == p.line:
 		p.w.WriteString("`#")
 		p.writeLit(cs.Last[0].Text)
